@@ -41,3 +41,10 @@ package client
 //@   assigns c.modernLayout
 //@   requires parts: outgoing.Header != nil && outgoing.Body != nil && outgoing.Body.Message != nil
 //@   ensures switch: c.modernLayout == (old(c.modernLayout) || (outgoing.Header.Version.SupportsModernFramingLayout() && (typeis(outgoing.Body.Message, *message.Ready) || typeis(outgoing.Body.Message, *message.Authenticate))))
+
+// Reassembly of an envelope split over several segments relies on the accumulator being there (connection invariant
+// above, established by both constructors); under it addMultiSegmentPayload and readFrame cannot dereference nil.
+//@ func (*CqlClientConnection).addMultiSegmentPayload
+//@   prop C15
+//@ func (*CqlClientConnection).readFrame
+//@   prop C15
